@@ -82,11 +82,39 @@ def rec_to_case(rec):
     return c
 
 
+TLS_SLOT_REFS = ("gottpoff_mov", "tlsgd", "tlsdesc")      # initial-exec slot, module/offset pair, descriptor
+
+
+def tls_slot_combinations(pairs):
+    """Always replayed (quick and thorough): a TLS symbol of a shared object (where nothing is relaxed
+    away) that needs every non-empty combination of GOT slot kinds [tpoff][dtpmod,dtpoff][desc], each
+    member observed in turn - the address of one slot depends on which of the others exist."""
+    import itertools
+    idx = {(p["sym"], p["ref"], p["extra"][0], p["out"]): p for p in pairs if p.get("extra")}
+    out = []
+    for sym in ("tls_def", "tls_imp"):
+        for obs in TLS_SLOT_REFS:
+            others = [r for r in TLS_SLOT_REFS if r != obs]
+            for n in (1, 2):
+                for extra in itertools.combinations(others, n):
+                    base = idx.get((sym, obs, extra[0], "shared"))
+                    if base is None:
+                        raise ToolError(f"the pairs model no longer emits ({sym}, {obs}, +{extra[0]}, shared)")
+                    rec = dict(base, extra=list(extra))
+                    out.append(rec)
+    # and in a PIE, where the combinations are partly relaxed (GD -> IE, TLSDESC -> IE for imports)
+    for obs, extra in (("tlsdesc", "gottpoff_mov"), ("gottpoff_mov", "tlsdesc"), ("tlsgd", "tlsdesc")):
+        base = idx.get(("tls_imp", obs, extra, "pie"))
+        if base is not None:
+            out.append(dict(base))
+    return out
+
+
 def select(records, pairs, ctx):
     rng = random.Random(ctx.seed)
     if not ctx.quick:
         prng = random.Random(ctx.seed + 1)
-        return [rec for rec in records], prng.sample(pairs, min(len(pairs), 1500))
+        return [rec for rec in records], tls_slot_combinations(pairs) + prng.sample(pairs, min(len(pairs), 1500))
     # quick: every (sym, ref, out) combination class at least... no: stratified sample, every named
     # deviation and every reference kind / symbol kind / output kind represented
     by = {}
@@ -117,7 +145,7 @@ def select(records, pairs, ctx):
         if key not in seen:
             seen.add(key)
             out.append(rec)
-    return out, rng.sample(pairs, min(len(pairs), 30))
+    return out, tls_slot_combinations(pairs) + rng.sample(pairs, min(len(pairs), 24))
 
 
 def judge(ctx, results, recs, cov, tag):
@@ -264,9 +292,12 @@ def aarch64_part(ctx, cov, d):
     build_wild()
     n = bad = 0
     samples = []
+    done_kinds = set()
     for kind in A64_SITES:
         for sym in A64_SYMS:
             cls = A64_SYMS[sym]
+            if ctx.quick and kind in done_kinds:
+                continue                # quick: one symbol per relocation kind (both output kinds)
             tlskind = kind in ("tlsle", "tlsie")
             if tlskind != (cls == "tls"):
                 continue
@@ -278,6 +309,7 @@ def aarch64_part(ctx, cov, d):
                 continue
             if kind == "got" and sym == "l_d":
                 continue        # clang reduces :got:local to section+addend; lld 14 and wild both ignore that addend
+            done_kinds.add(kind)
             for out in ("static", "staticpie"):
                 if out == "staticpie" and kind in ("abs32",):
                     continue
@@ -328,7 +360,7 @@ def aarch64_part(ctx, cov, d):
                         break
     cov["aarch64_links_observed"] = n
     cov["aarch64_wrong"] = bad
-    if n < 20:
+    if n < (14 if ctx.quick else 40):
         raise ToolError(f"only {n} AArch64 links accepted: the AArch64 part is vacuous")
     return samples
 
